@@ -18,7 +18,9 @@ Oracle (written from the property statement, independent of y0 and of the model;
   (c) any exception on an input inside the quantifier is a failure; invalid inputs must raise ValueError;
   (d) vocabulary (C06): every leaf is target-observational or a declared source domain under a subset of its
       experiments; no selection node anywhere;
-  (e) helpers: selection-node placement vs the independent rule, the diagram vs its set-theoretic definition, the
+  (e) on EVERY identify case: get_nodes_to_transport of every declared domain vs the independent rule
+      (De(Z)-W) u (C(W)-An(W) in G[bar Z]) computed with the oracle's own graph code;
+      helpers: selection-node placement vs the independent rule, the diagram vs its set-theoretic definition, the
       line-6 separation test vs true m-separation (path enumeration), activation vs its meaning (the same terms read in
       the source domain under the intervention);
   (R) the caller's graph / sets / dictionaries are unchanged by the call.
@@ -45,7 +47,10 @@ PROP = "C05"
 TARGET = FE.TARGET
 RULE = ("random ADMGs with 2-6 nodes (isolated nodes, bidirected-only nodes, bows) x disjoint non-empty X, Y x 0-2 source "
         "domains with random experiment sets Z_i and surrogate-outcome sets W_i (empty, overlapping, equal to X / Y, "
-        "unusable); plus relabelled/perturbed variants of the paper examples and of every past witness (nested "
+        "unusable); plus a structured SPREAD stream (a source domain whose 2-3 surrogate outcomes lie in different districts, a node "
+        "in the district of one of them that is no ancestor of W, no descendant of Z and an ancestor of the target outcome, so "
+        "that C(W) - An(W) matters: A -> M -> B, A -> S, M <-> U -> B, X = Z = {A}, W = {M, S}, Y = {B} and variations; random "
+        "ADMGs with W picked from different districts); plus relabelled/perturbed variants of the paper examples and of every past witness (nested "
         "c-component graphs that reach line 10 twice, line 10 inside a source domain, terms that contain only intervened "
         "variables); plus a malformed stream (overlapping X and Y, names outside the graph, mismatching domain keys); "
         "plus direct calls of the helpers. A case is non-trivial when the graph has >=3 nodes and the run reaches one of "
@@ -53,20 +58,30 @@ RULE = ("random ADMGs with 2-6 nodes (isolated nodes, bidirected-only nodes, bow
 ASSUMPTIONS = [
     "trso_sound (estimand = P*(y|do(x)) in every compatible family) is OPEN: only 'line 1 is marginalisation of the carried "
     "distribution' (line1_den) is proved; the clause rests on the correspondence + exact multi-domain oracle",
-    "trso_no_surrogate_iff_id (verdict = ID's verdict when no experiment is usable) is OPEN; proved is only that without "
-    "declared experiments every leaf is a target observational term (trso_no_domains_target_only); the verdict is compared "
-    "with the real identify_outcomes on every no-surrogate case",
-    "trso_no_internal_error is OPEN: the model makes every raise explicit and trsoF_error_internal / identify_trichotomy "
-    "classify the outcomes; that no internal error is reachable from identify_target_outcomes on valid input (including "
-    "that the recursion budget Query.fuel suffices) is checked by the correspondence, not proved",
+    "trso_no_surrogate_iff_id: the VERDICT part is proved (trso_no_surrogate_iff_id_partial, "
+    "trso_no_surrogate_none_iff_id_partial: with no declared experiment the model of TRSO returns an estimand exactly when "
+    "the model of ID does, and 'no estimand' exactly when ID raises Unidentifiable); that both estimands denote the same "
+    "function is OPEN (needs denotation lemmas for the TrDsl operators; fraction cancellation needs positivity); the "
+    "verdict is also compared with the real identify_outcomes on every no-surrogate case",
+    "trso_no_internal_error: proved for inputs whose source domains declare no experiment "
+    "(trso_no_internal_error_partial) and, for ALL validated inputs, up to one raise site "
+    "(trso_only_activate_error_partial: the only error that can remain is the NotImplementedError that "
+    "activate_domain_and_interventions raises on One(); no KeyError / NetworkX error / RuntimeError / ZeroDivisionError / "
+    "TypeError / AttributeError / ValueError / RecursionError: the budget Query.fuel provably exceeds a decreasing "
+    "measure). OPEN: that the estimand found inside a source domain never contains One(). Hypotheses: graph well-formed "
+    "and acyclic, node names below 100 (the harness's name table; selection nodes are 200 + v), Y non-empty",
+    "the theorems about `are_d_separated` used for the phase after line 6 are about the model Trso.dSeparated "
+    "(moralisation test), tied to the Python by the `separated` helper correspondence",
     "the rule placing selection nodes, (De(Z_i) - W_i) u (C(W_i) - An(W_i) in G[bar Z_i]), is taken from the paper as "
     "restated in the docstring and re-implemented independently in the oracle; families differ from the target only in "
     "the mechanisms (kernels given parents and latents) at marked nodes",
     "model class of the oracle and of Spec/FamilySpec: discrete variables, positive rational parameters, independent "
     "root latents (one per bidirected edge, sometimes one per bidirected triangle)",
     "'the caller's objects are unchanged' is a Python-runtime clause (R) checked on every call, not a theorem",
-    "Python iterates sets in hash order; the model iterates in name order; theorems about the model hold for the "
-    "model's order, equality of VALUES with the Python's order is checked by exact evaluation",
+    "Python iterates sets in hash order (in particular networkx' topological_sort of graphs rebuilt from sets); the model "
+    "iterates in name order; theorems about the model hold for the model's order, equality of VALUES with the Python's "
+    "order is checked by exact evaluation (about 7% of the estimands agree by value only; the Product.safe sort key of the "
+    "model is the fixed total _get_key since round 2)",
 ]
 LEANCHECK_MODULES = ["Y0.Model.TrDsl", "Y0.Model.Trso", "Y0.Props.C05", "Y0.Props.C06Transport"]
 EXHAUSTIVE = {"quick": False, "thorough": False}
@@ -196,6 +211,75 @@ def _rand_identify(rng, nmax=6):
     return _idc(g, X, Y, doms, seed=rng.randrange(1 << 30))
 
 
+def _spread_case(rng):
+    """structured stream (round 2): a source domain whose surrogate outcomes are spread over several districts, with a node U in
+    the district of one surrogate outcome that is no ancestor of W, no descendant of Z, and an ancestor of the target
+    outcome (C(W) - An(W) is non-empty and matters): A -> M -> B, A -> S, M <-> U -> B with X = {A}, Y = {B}, Z = {A},
+    W = {M, S} and variations (third surrogate outcome, extra parents/edges, a second domain, larger X / Y)"""
+    k3 = rng.random() < 0.3
+    roles = ["A", "U", "M", "S"] + (["S2"] if k3 else []) + ["B"]
+    names = rng.sample(range(len(roles) + rng.choice([0, 0, 1])), len(roles))
+    n = dict(zip(roles, names))
+    di = [[n["A"], n["M"]], [n["M"], n["B"]], [n["U"], n["B"]], [n["A"], n["S"]]]
+    bi = [[n["U"], n["M"]]]
+    if k3:
+        di.append([rng.choice([n["A"], n["M"], n["S"]]), n["S2"]])
+        if rng.random() < 0.5:
+            di.append([n["S2"], n["B"]])
+    order = [n[r] for r in roles]
+    pos = {v: i for i, v in enumerate(order)}
+    for i in range(len(order)):
+        for j in range(i + 1, len(order)):
+            a, b = order[i], order[j]
+            if rng.random() < 0.08 and [a, b] not in di:
+                di.append([a, b])
+            if rng.random() < 0.05 and [a, b] not in bi and [b, a] not in bi:
+                bi.append([a, b])
+    X = [n["A"]]
+    Y = [n["B"]]
+    if rng.random() < 0.15:
+        Y.append(n["S"])
+    W = [n["M"], n["S"]] + ([n["S2"]] if k3 else [])
+    if rng.random() < 0.15:
+        W.append(n["B"])
+    Z = [n["A"]]
+    doms = [[sorted(Z), sorted(W)]]
+    r = rng.random()
+    if r < 0.25:       # a second domain with one of the surrogate outcomes only / with another experiment
+        doms.append([sorted(rng.sample(order, rng.randint(0, 2))), sorted(rng.sample(order, rng.randint(1, 2)))])
+    elif r < 0.35:
+        doms.insert(0, [[], sorted(rng.sample(order, 2))])
+    del pos
+    return _idc({"nodes": [], "di": di, "bi": bi}, X, Y, doms, seed=rng.randrange(1 << 30), stream="spread")
+
+
+def _spread_random(rng):
+    """random ADMG; one domain whose surrogate outcomes are chosen from DIFFERENT districts, experiments on (part of) X"""
+    for _ in range(50):
+        g = G.rand_graph(rng, 4, 6, acyclic=True, pd=rng.choice([0.3, 0.5]), pb=rng.choice([0.15, 0.3]))
+        nodes = G.all_nodes(g)
+        ds = [d for d in FE.districts(nodes, [tuple(e) for e in g["bi"]])]
+        if len(nodes) >= 4 and len(ds) >= 2 and any(len(d) >= 2 for d in ds) and len(g["bi"]) <= 8:
+            break
+    else:
+        return _rand_identify(rng)
+    big = rng.choice([d for d in ds if len(d) >= 2])
+    others = [d for d in ds if d != big]
+    W = {rng.choice(sorted(big))} | {rng.choice(sorted(d)) for d in rng.sample(others, rng.randint(1, min(2, len(others))))}
+    rest = [v for v in nodes if v not in W]
+    rng.shuffle(rest)
+    if not rest:
+        return _rand_identify(rng)
+    X = rest[:rng.randint(1, min(2, len(rest)))]
+    pool = [v for v in nodes if v not in X]
+    Y = rng.sample(pool, rng.randint(1, min(2, len(pool))))
+    Z = [v for v in X if rng.random() < 0.85] or [X[0]]
+    doms = [[sorted(Z), sorted(W)]]
+    if rng.random() < 0.3:
+        doms.append([sorted(v for v in nodes if rng.random() < 0.3), sorted(v for v in nodes if rng.random() < 0.4)])
+    return _idc(g, X, Y, doms, seed=rng.randrange(1 << 30), stream="spread_random")
+
+
 def _rand_malformed(rng):
     c = _rand_identify(rng, 5)
     kind = rng.choice(["overlap", "outside", "keys", "outside_dom"])
@@ -260,6 +344,9 @@ def cases(rng: random.Random, tier: str):
     out += [c for c in _corpus_dir() if json.dumps(c, sort_keys=True) not in seen]
     n_rand, n_pert, n_mal, n_help = {"quick": (6000, 2500, 200, 2500), "escalated": (16000, 7000, 400, 6000)}.get(
         tier, (60000, 25000, 1000, 15000))
+    n_spread = {"quick": 1200, "escalated": 3000}.get(tier, 10000)
+    for _ in range(n_spread):
+        out.append(_spread_case(rng) if rng.random() < 0.6 else _spread_random(rng))
     for _ in range(n_rand):
         out.append(_rand_identify(rng, 6 if rng.random() < 0.35 else 5))
     seeds = [c for c in CORPUS if "malformed" not in c]
@@ -412,7 +499,8 @@ def _run_identify(case):
     log = _line_log()
     valid = _valid_identify(case)
     fail = None
-    tags = {"kind": "identify", "n_nodes": len(G.all_nodes(g)), "n_domains": len(doms), "valid_input": valid}
+    tags = {"kind": "identify", "n_nodes": len(G.all_nodes(g)), "n_domains": len(doms), "valid_input": valid,
+            "stream": case.get("stream", "random")}
     try:
         r = identify_target_outcomes(graph, target_outcomes=Y, target_interventions=X, surrogate_outcomes=so,
                                      surrogate_interventions=si)
@@ -460,11 +548,28 @@ def _run_identify(case):
                     break
                 truth = fam.effect(case["X"], case["Y"])
                 if not fam.equal_everywhere(val, truth):
+                    tags["estimand_wrong"] = True
                     fail = ("estimand differs from P*(y|do(x)): " + json.dumps(fam.first_difference(val, truth))
                             + " family " + json.dumps(fam.describe()) + " estimand " + str(r)[:400])
                     break
     else:
         tags["outcome"] = out[0] if out[0] != "err" else "err-" + out[1]
+    # (e) on every identify case: the real get_nodes_to_transport of every declared domain vs the independent rule
+    if valid and fail is None:
+        from y0.algorithm.transport import get_nodes_to_transport
+        for k, (Z, W) in enumerate(doms):
+            try:
+                got = {G.vint(v) for v in get_nodes_to_transport(surrogate_interventions={V(z) for z in Z},
+                                                                 surrogate_outcomes={V(w) for w in W}, graph=graph)}
+            except Exception as e:  # noqa: BLE001
+                fail = f"get_nodes_to_transport raised {type(e).__name__} for domain {k + 1} (Z={Z}, W={W})"
+                break
+            exp = set(FE.nodes_may_differ(g, Z, W))
+            if got != exp:
+                fail = (f"domain {k + 1} (Z={sorted(Z)}, W={sorted(W)}): selection nodes placed at {sorted(got)}, the rule "
+                        f"(De(Z)-W) u (C(W)-An(W) in G[bar Z]) gives {sorted(exp)}")
+                tags["nodes_rule_violated"] = True
+                break
     # (b) no usable surrogate experiment: verdict must be ID's
     if valid and fail is None and all(not Z for Z, _ in doms):
         tags["no_surrogate"] = True
@@ -781,11 +886,20 @@ atexit.register(_report)
 
 MANIFEST = {
     "text": ("Partial proof. Lean theorems about the executable model of transport.py (Y0.Model.Trso / TrDsl, tied to the code "
-             "by the correspondence check on every run; 16 theorems in Props/C05 + 19 in Props/C06Transport): "
-             "(1) totality and error taxonomy - the recursion is structural on an explicit budget and every outcome is an "
-             "estimand, 'no estimand' or an INTERNAL error (trsoF_error_internal); identify_target_outcomes raises the "
-             "documented ValueError exactly on invalid input (identify_invalid_iff) and otherwise obeys the trichotomy "
-             "estimand / no estimand / internal error (identify_trichotomy); "
+             "by the correspondence check on every run; 22 theorems in Props/C05 + 19 in Props/C06Transport): "
+             "(1) totality and error taxonomy - every outcome of the recursion is an estimand, 'no estimand' or an INTERNAL "
+             "error (trsoF_error_internal); identify_target_outcomes raises the documented ValueError exactly on invalid "
+             "input (identify_invalid_iff, identify_trichotomy); "
+             "(1b) 'never fails other than by no estimand': PROVED for every validated input whose source domains declare no "
+             "experiment (trso_no_internal_error_partial), and for ALL validated inputs up to one raise site "
+             "(trso_only_activate_error_partial): the only exception that can remain is the NotImplementedError of "
+             "activate_domain_and_interventions on One(); every look-up, ancestor computation, separation test, "
+             "topological sort, index and expression operator succeeds, and the recursion budget exceeds a lexicographic "
+             "measure that decreases at every call (invariants: node sets preserved, selection nodes parentless, after "
+             "line 6 every child of a selection node is a target intervention - from the positive separation test); "
+             "(1c) with no usable surrogate experiment TRSO returns an estimand exactly when ID does, and 'no estimand' "
+             "exactly when ID refuses (trso_no_surrogate_iff_id_partial, trso_no_surrogate_none_iff_id_partial: lock-step "
+             "simulation with the ID model of C01/C02); "
              "(2) selection diagrams - create_transport_diagram adds exactly one parentless selection node T_v -> v per marked "
              "variable and nothing else; get_nodes_to_transport returns exactly (De(Z)-W) u (C(W)-An(W) in G[bar Z]) and is "
              "defined whenever Z, W are inside the graph; "
@@ -795,10 +909,11 @@ MANIFEST = {
              "a selection node; without declared experiments only target terms occur (trso_no_domains_target_only); "
              "(4) semantics - Sum.safe denotes the iterated sum and line 1 is marginalisation of the carried distribution "
              "(den_sumSafe, line1_den). NOT proved (stated as OPEN in Props/C05.lean): soundness of the recursion in every "
-             "compatible SCM family (trso_sound), equality of the no-surrogate verdict with ID's, and that no internal error "
-             "is reachable on valid input. These clauses are decided on every run by the correspondence plus the "
+             "compatible SCM family (trso_sound), that the two estimands of (1c) denote the same function, and that "
+             "activate never meets One(). These clauses are decided on every run by the correspondence plus the "
              "exact-rational multi-domain oracle, which evaluates every returned estimand at every value assignment on two "
-             "random compatible families, by comparison with identify_outcomes on every no-surrogate case, and by treating "
+             "random compatible families, by an independent re-computation of get_nodes_to_transport for every declared "
+             "domain of every case, by comparison with identify_outcomes on every no-surrogate case, and by treating "
              "any exception on valid input as a violation. Four defects found by this check were repaired on branch "
              "fix-transport (known_findings.jsonl); their witnesses stay in the corpus."),
     "note": ("Trusted: Lean kernel; axioms propext/Classical.choice/Quot.sound; the hand-written models of transport.py, of the "
